@@ -9,5 +9,101 @@ func init() {
 			Opens:   []string{"Go", "Hand", "Const"},
 			Funcs:   authzFuncs(),
 		},
+		// (round 3) the handler shells around the decision functions: request parsing, request objects, the Server
+		// router's handler with its error writer, the Provider router's handler.  Own namespace: `Gen.ParseRequestObject`
+		// is C14's model of the same Go function on its own types.
+		{
+			Out:     "AuthorizeShell.lean",
+			Imports: []string{"OidcModel.Generated.Authorize"},
+			Opens:   []string{"Go", "Hand", "Const", "Gen"},
+			NS:      "GenAz",
+			Funcs:   authzShellFuncs(),
+		},
 	}...)
+}
+
+func authzShellFuncs() []FuncSpec {
+	const ar = "pkg/op/auth_request.go"
+	ren := map[string]string{}
+	for k, v := range azRename {
+		ren[k] = v
+	}
+	for k, v := range map[string]string{
+		"oidc.ParseToken()":                  "(ro).ParseToken",
+		"oidc.CheckSignature()":              "(ro).CheckSignature",
+		"jwtProfileKeySet{}":                 "Hand.azKeySet",
+		"CopyRequestObjectToAuthRequest()":   "CopyRequestObjectToAuthRequest now",
+		"ParseRequestObject()":               "ParseRequestObject now ro",
+		"ParseAuthorizeRequest()":            "ParseAuthorizeRequest now",
+		"decodeRequest[oidc.AuthRequest]()":  "decodeRequest now",
+		"decodeRequest()":                    "decodeRequest now",
+		"newRequest()":                       "Hand.azNewRequest",
+		"s.authorize()":                      "WebAuthorize now o d s",
+		"WriteError()":                       "WriteError now",
+		"writeError()":                       "writeError now",
+		"redirect.writeOut()":                "RedirectWriteOut now redirect",
+		"httphelper.MarshalJSONWithStatus()": "Hand.marshalJSONWithStatus",
+		"errors.As()":                        "Hand.azErrorsAs",
+		"oidc.ServerError":                   "\"server_error\"",
+		"oidc.DefaultToServerError()":        "DefaultToServerError now",
+		"http.StatusInternalServerError":     "(500 : Int)",
+		"s.getLogger()":                      "(s).logger",
+	} {
+		ren[k] = v
+	}
+	pRo := "(ro : AzRoOracle)"
+	fs := []FuncSpec{
+		{File: ar, Name: "ParseAuthorizeRequest", Lean: "ParseAuthorizeRequest", Params: []string{"(r : AzHttpReq)", "(decoder : AzDecoder)"},
+			Ret: RetValErr, RetType: "AuthRequestData", Rename: ren, OutParams: map[string]OutParam{"decoder.Decode": {0, false}}},
+		{File: ar, Name: "CopyRequestObjectToAuthRequest", Lean: "CopyRequestObjectToAuthRequest",
+			Params: []string{"(authReq : AuthRequestData)", "(requestObject : AzRequestObject)"}, Ret: RetVal, RetParam: "authReq", RetType: "AuthRequestData", Rename: ren, LetIf: true},
+		{File: ar, Name: "ParseRequestObject", Lean: "ParseRequestObject",
+			Params: []string{pRo, "(authReq : AuthRequestData)", "(storage : AzStorage)", "(issuer : String)"}, Ret: RetErr, RetParam: "authReq", RetType: "AuthRequestData", Rename: ren, RenameDropsOut: true},
+		{File: "pkg/op/server_http.go", Name: "decodeRequest", Lean: "decodeRequest", Params: []string{"(decoder : AzDecoder)", "(r : AzHttpReq)", "(postOnly : Bool)"},
+			Ret: RetValErr, RetType: "AuthRequestData", Rename: ren, OutParams: map[string]OutParam{"decoder.Decode": {0, false}}},
+		{File: "pkg/op/error.go", Name: "writeError", Lean: "writeError", Params: []string{"(err : OidcError)", "(statusCode : Int)", "(logger : Unit)"}, Ret: RetWrites, Rename: ren},
+		{File: "pkg/op/error.go", Name: "WriteError", Lean: "WriteError", Params: []string{"(err : String)", "(logger : Unit)"}, Ret: RetWrites, Rename: ren,
+			ErrorsAsBind: true, ZeroOf: map[string]string{"StatusError": "({} : AzStatusError)"}},
+		{File: "pkg/op/server.go", Name: "Redirect.writeOut", Lean: "RedirectWriteOut", Params: []string{"(red : Redirect)"}, Ret: RetWrites, Rename: ren, Ignore: []string{"gu.MapMerge"}},
+		{File: "pkg/op/server_http.go", Name: "webServer.authorizeHandler", Lean: "WebAuthorizeHandler",
+			Params: []string{pO, pD, "(s : AzWebServer)", "(r : AzHttpReq)"}, Ret: RetWrites, Rename: ren},
+	}
+	// op.Authorize: the validation closure assigns to the captured variable `client` (CaptureOut): the Lean lambda returns the
+	// variable's final value next to its result, the call binds it again
+	fs = append(fs, FuncSpec{File: ar, Name: "Authorize", Lean: "Authorize", Params: []string{pO, pD, "(r : AzHttpReq)", "(authorizer : AzProvider)"},
+		Ret: RetWrites, Closures: true, CaptureOut: "client", CaptureType: "OPClient", ZeroOf: map[string]string{"Client": "(default : OPClient)"},
+		TypeAsserts: map[string]string{"AuthorizeValidator": "Hand.asAuthorizeValidator"},
+		Rename: renWith(ren, map[string]string{"validator.ValidateAuthRequest": "(Hand.azCustomValidation validator client)", "validation()": "validation", "ValidateAuthRequestClient()": "ValidateAuthRequestClient now o d",
+			"ParseRequestObject()": "(d).ParseRequestObject"})})
+	for i := range fs {
+		fs[i].AutoTypes = azAutoTypes
+	}
+	return fs
+}
+
+func renWith(base, extra map[string]string) map[string]string {
+	m := map[string]string{}
+	for k, v := range base {
+		m[k] = v
+	}
+	for k, v := range extra {
+		m[k] = v
+	}
+	return m
+}
+
+// AuthResponseFormPost (round 3): the response writer is threaded as the list of writes; executing the html/template is an ORACLE
+// (`AzFormTemplate`: which action attribute the rendered page carries), so the URL filter of html/template is visible to the theorems
+func formPostSpec() FuncSpec {
+	const ar = "pkg/op/auth_request.go"
+	ren := azRename
+	return FuncSpec{File: ar, Name: "AuthResponseFormPost", Lean: "AuthResponseFormPost",
+		Params: []string{"(tm : AzFormTemplate)", "(res : List Write)", "(redirectURI : String)", "(response : RespParams)", "(encoder : Encoder)"},
+		Ret:    RetErr, Writer: "res", WorldType: "List Write", Rename: renWith(ren, map[string]string{
+			"<*ast.StructType>{}": "Hand.formPostParams", "formPostTmpl": "tm", "res.WriteHeader()": "Hand.resWriteHeader res", "buf.WriteTo()": "Hand.bufWriteTo buf",
+		}),
+		MakeMapZero: "({} : RespParams)",
+		Effectful:   []string{"res.WriteHeader"},
+		Imperative:  true, LocalOut: map[string]OutParam{"encoder.Encode": {1, false}, "formPostTmpl.Execute": {0, false}},
+		Ignore: []string{"res.Header().Set"}}
 }
